@@ -87,6 +87,33 @@ class L1:
         self.chk.add(Ob("lemma: T-free curve equation c' = Z^2*c + d*h*(2XY+h) (so c'=0 for valid points)", r, s, [], "polynomial identity (z3)"))
 
 
+def path_hyps(l1, r, stages, order_hint=("T1", "T2", "Y1", "Y2", "X1", "X2", "Z1", "Z2", "d")):
+    """stages extended by the hypotheses this path has established: inverse symbols (z*inv = 1) and
+    Element.Equal tests that are true on the path (their polynomial vanishes mod p)"""
+    import z3
+    st = list(stages)
+    for h in r.dstate.get("hyp", []):
+        if h[0] == "inv":
+            st = [([h[1] * Poly.var(h[2]) - 1], [h[2]])] + st
+        elif h[0] == "eq":
+            so = z3.Solver()
+            for c in r.pc:
+                so.add(c)
+            so.add(z3.Not(h[2]))
+            if so.check() == z3.unsat:
+                st = [([h[1]], list(order_hint))] + st
+    return st
+
+
+def returning_paths(l1, fname, args, path, label):
+    """explore; record an obligation if some path does not return normally; yields (tag, path) for returning paths"""
+    ps = l1.ex.call(fname, args, path)
+    bad = [p for p in ps if p.outcome[0] != "ret"]
+    ob = l1.chk.add(Ob("%s: returns normally on every path (%d path(s))" % (label, len(ps)), "unsat" if ps and not bad else "sat", 0, [fname], "ring mode", detail=str([p.outcome for p in bad][:2])))
+    good = [p for p in ps if p.outcome[0] == "ret"]
+    return ob, [("" if len(good) == 1 else " [path %d]" % i, p) for i, p in enumerate(good)]
+
+
 def law(P1, P2, d, sign=1):
     """projective numerators/denominators of the affine Edwards addition law for P1 + sign*P2"""
     X1, Y1, Z1, T1 = P1
@@ -140,17 +167,20 @@ def api_add_sub(l1, sub=False, alias="distinct"):
         v = q
     elif alias == "p=q":
         v = l1.junk_obj(path, "Point", "R")
-    r = l1.call1(fname, [v, p, q], path)
-    out = l1.read(r, v, "Point")
+    ob0, rets = returning_paths(l1, fname, [v, p, q], path, label)
+    obs = [ob0]
     pts = [P1] if P2 is P1 else [P1, P2]
     stages, mult = l1.stages_p3(pts)
     Nx, Dx, Ny, Dy = law(P1.coords(), P2.coords(), l1.d, -1 if sub else 1)
     Z1, Z2 = P1.Z, P2.Z
-    obs = check_p3_out(l1, label, fname, out, stages, mult, Nx, Dx, Ny, Dy,
-                       (Z1 ** 2 * Z2 ** 2, Poly.const(4) * Dx * Dy, "Z1^2*Z2^2*Z3 = 4*(Z1^2Z2^2 + d x..)(Z1^2Z2^2 - d x..)  [non-zero by completeness]"))
-    l1.chk.fact("%s: returns the receiver; no panic for valid inputs" % label, r.outcome[1][0] == v, [fname])
-    others = [o.obj for o in (p, q) if o != v]
-    l1.chk.fact("%s: arguments not written" % label, not any(w[0] == "w" and w[1] in others for w in r.log), [fname])
+    out = None
+    for tag, r in rets:
+        out = l1.read(r, v, "Point")
+        obs += check_p3_out(l1, label + tag, fname, out, path_hyps(l1, r, stages), mult, Nx, Dx, Ny, Dy,
+                            (Z1 ** 2 * Z2 ** 2, Poly.const(4) * Dx * Dy, "Z1^2*Z2^2*Z3 = 4*(Z1^2Z2^2 + d x..)(Z1^2Z2^2 - d x..)  [non-zero by completeness]"))
+        l1.chk.fact("%s%s: returns the receiver" % (label, tag), r.outcome[1][0] == v, [fname])
+        others = [o.obj for o in (p, q) if o != v]
+        l1.chk.fact("%s%s: arguments not written" % (label, tag), not any(w[0] == "w" and w[1] in others for w in r.log), [fname])
     return obs, (out, P1, P2)
 
 
@@ -162,17 +192,21 @@ def api_negate(l1, alias="distinct"):
     P1 = l1.p3("1")
     p = l1.obj(path, "Point", P1.coords(), "p")
     v = p if alias == "v=p" else (l1.zero_obj(path, "Point") if alias == "zero receiver" else l1.junk_obj(path, "Point", "R"))
-    r = l1.call1(fname, [v, p], path)
-    out = l1.read(r, v, "Point")
-    stages, mult = l1.stages_p3([P1])
-    obs = check_p3_out(l1, label, fname, out, stages, mult)
-    X3, Y3, Z3, T3 = out
-    obs.append(l1.goal(label, "x(-P) = -x(P): X3*Z1 = -X1*Z3", X3 * P1.Z + P1.X * Z3, stages, mult, fname))
-    obs.append(l1.goal(label, "y(-P) = y(P): Y3*Z1 = Y1*Z3", Y3 * P1.Z - P1.Y * Z3, stages, mult, fname))
-    obs.append(l1.goal(label, "Z3 = Z1 (non-zero)", Z3 - P1.Z, stages, mult, fname))
-    l1.chk.fact("%s: returns the receiver" % label, r.outcome[1][0] == v, [fname])
-    if v != p:
-        l1.chk.fact("%s: argument not written" % label, not any(w[0] == "w" and w[1] == p.obj for w in r.log), [fname])
+    ob0, rets = returning_paths(l1, fname, [v, p], path, label)
+    obs = [ob0]
+    stages0, mult = l1.stages_p3([P1])
+    for tag, r in rets:
+        out = l1.read(r, v, "Point")
+        stages = path_hyps(l1, r, stages0)
+        lb = label + tag
+        obs += check_p3_out(l1, lb, fname, out, stages, mult)
+        X3, Y3, Z3, T3 = out
+        obs.append(l1.goal(lb, "x(-P) = -x(P): X3*Z1 = -X1*Z3", X3 * P1.Z + P1.X * Z3, stages, mult, fname))
+        obs.append(l1.goal(lb, "y(-P) = y(P): Y3*Z1 = Y1*Z3", Y3 * P1.Z - P1.Y * Z3, stages, mult, fname))
+        obs.append(l1.goal(lb, "Z3 is a non-zero multiple of Z1: Z3 = Z1", Z3 - P1.Z, stages, mult, fname))
+        l1.chk.fact("%s: returns the receiver" % lb, r.outcome[1][0] == v, [fname])
+        if v != p:
+            l1.chk.fact("%s: argument not written" % lb, not any(w[0] == "w" and w[1] == p.obj for w in r.log), [fname])
     return obs
 
 
